@@ -130,13 +130,77 @@ let parse_xout o =
             | [toks; t; c] -> M.XREach (unhexs toks, unhex t, c = "1") | _ -> M.XRPanic)
   | _ -> M.XRPanic
 
+(* Round 6: sessions in which the reader returned by Rest is read only in part.
+     p<k>  Rest, and the first k bytes are read from the reader it returns      p<hex of the bytes read>
+     q<k>  k more bytes from the reader the last Rest returned                   q<hex> (q- when there is none)
+     t     Text and Complete, no call in between                                 t<hex>:<complete>
+   The extracted session functions (run_opsx, session_okx) know Rest only together with reading ALL of
+   its reader.  A session with one of these ops is stepped here, call by call, with the extracted next /
+   rest / reset_sc / scanner_split / scanner_each / text / complete / err_eof; the scanner's [inp] is
+   what its buffered reader still holds, so reading k bytes from the reader Rest returned (which IS that
+   buffered reader) leaves [inp] = the unread bytes.  Sessions without these ops go through run_opsx as
+   before, and a sample of them through this stepper as well (they must agree). *)
+let optoks ops =
+  let n = String.length ops in
+  let rec go i acc =
+    if i >= n then List.rev acc else
+    let c = ops.[i] in
+    if c = 'p' || c = 'q' then begin
+      let j = ref (i + 1) and k = ref 0 in
+      while !j < n && ops.[!j] >= '0' && ops.[!j] <= '9' do
+        k := min (!k * 10 + Char.code ops.[!j] - 48) (1 lsl 24); incr j done;
+      go !j ((c, !k) :: acc)
+    end else if c = 't' || xop_of_char c <> None then go (i + 1) ((c, 0) :: acc)
+    else go (i + 1) acc in
+  go 0 []
+let is_ext toks = List.exists (fun (c, _) -> c = 'p' || c = 'q' || c = 't') toks
+let rec take_b k l = if k <= 0 then [] else match l with [] -> [] | x :: t -> x :: take_b (k - 1) t
+let rec drop_b k l = if k <= 0 then l else match l with [] -> [] | _ :: t -> drop_b (k - 1) t
+(* observations (as trace text) and the scanner afterwards (None: the model panicked) *)
+let run_ext src sc toks =
+  let rec go sc have toks acc =
+    match toks with
+    | [] -> (List.rev acc, Some sc)
+    | (c, k) :: r ->
+      let tag = String.make 1 c in
+      (match c with
+       | 'n' -> (match M.next sc with
+           | None -> (List.rev ("PANIC" :: acc), None)
+           | Some (sc', ok) -> go sc' have r (show_xout tag (M.XRNext (ok, M.text sc', M.complete sc')) :: acc))
+       | 'r' -> let (sc', b) = M.rest sc in go sc' true r (("r" ^ hex b) :: acc)
+       | 'p' -> let (sc', b) = M.rest sc in
+         go { sc' with M.inp = drop_b k b } true r (("p" ^ hex (take_b k b)) :: acc)
+       | 'q' -> if have then go { sc with M.inp = drop_b k sc.M.inp } have r (("q" ^ hex (take_b k sc.M.inp)) :: acc)
+         else go sc have r ("q-" :: acc)
+       | 't' -> go sc have r (("t" ^ hex (M.text sc) ^ ":" ^ b01 (M.complete sc)) :: acc)
+       | 'e' -> go sc have r (show_xout tag (M.XRErr (M.err_eof sc)) :: acc)
+       | 'z' -> go (M.reset_sc sc src) false r ("z" :: acc)
+       | 's' -> (match M.scanner_split sc with
+           | None -> (List.rev ("PANIC" :: acc), None)
+           | Some (sc', toks') -> go sc' have r (show_xout tag (M.XRSplit (toks', M.text sc', M.complete sc')) :: acc))
+       | _ -> (match xop_of_char c with
+           | Some (M.XEach stop) -> (match M.scanner_each sc stop with
+               | None -> (List.rev ("PANIC" :: acc), None)
+               | Some (sc', toks') -> go sc' have r (show_xout tag (M.XREach (toks', M.text sc', M.complete sc')) :: acc))
+           | _ -> go sc have r acc)) in
+  go sc false toks []
+
 let eval_session = memo1 (fun (s, rest) ->
+    let opstr = match rest with [o] -> o | _ -> "" in
+    let toks = optoks opstr in
+    let src = unhex s in
+    if is_ext toks then String.concat ";" (fst (run_ext src (M.new_scanner src) toks)) else begin
     let ops = xops_of rest in
-    let outs = M.run_opsx (unhex s) (M.new_scanner (unhex s)) ops in
+    let outs = M.run_opsx src (M.new_scanner src) ops in
     let rec zip cs outs = match cs, outs with
       | c :: cs', o :: outs' -> show_xout (String.make 1 c) o :: zip cs' outs'
       | _, _ -> [] in
-    String.concat ";" (zip (xchars_of rest) outs))
+    let res = String.concat ";" (zip (xchars_of rest) outs) in
+    (* the stepper of the round-6 sessions, on a sample of the ordinary ones: it must say what run_opsx says *)
+    if (String.length s + 7 * String.length opstr) mod 5 = 0 && String.length s < 400
+       && String.concat ";" (fst (run_ext src (M.new_scanner src) toks)) <> res
+    then "EXC:the driver's call-by-call stepper and the extracted run_opsx disagree: " ^ res
+    else res end)
 
 (* K lines (round 4): a history of Quote / Join / Split(Join) / Split calls in one process over the
    strings of a list; q<i> Quote(ss[i]), j<i>.<n> Join(ss[i:i+n]), r<i>.<n> Split(Join(ss[i:i+n])),
@@ -211,17 +275,32 @@ let show_outs cs outs =
     | c :: cs', o :: outs' -> show_xout (String.make 1 c) o :: zip cs' outs'
     | _, _ -> [] in
   zip cs outs
-type mline = { m_pre : bool; m_nil : bool; m_src1 : M.n list; m_c1 : char list; m_src2 : M.n list; m_c2 : char list; m_k : int }
+type mline = { m_pre : bool; m_nil : bool; m_src1 : M.n list; m_c1 : char list; m_src2 : M.n list; m_c2 : char list; m_k : int;
+               m_t1 : (char * int) list; m_t2 : (char * int) list }   (* the sessions as tokens (round 6: p<k>, q<k>, t) *)
+let mtoks o = if o = "-" then [] else List.filter (fun (c, _) -> c <> 'z') (optoks o)
 let parse_m = function
   | ["M"; k1; s1; o1; k2; s2; o2] when mkind_ok true k1 && mkind_ok false k2 ->
     (try
        let c1 = mops o1 in
-       if k1 = "0" && c1 <> [] then None else
+       if k1 = "0" && (c1 <> [] || mtoks o1 <> []) then None else
        Some { m_pre = (k1.[0] = 'x'); m_nil = (k1 = "0"); m_src1 = unhex s1; m_c1 = c1; m_src2 = unhex s2; m_c2 = mops o2;
+              m_t1 = mtoks o1; m_t2 = mtoks o2;
               m_k = (if k1.[0] = 'x' then int_of_string (String.sub k1 1 (String.length k1 - 1)) else 0) }
      with _ -> None)
   | _ -> None
+let eval_m_ext m =
+  (* a session with round-6 ops: the call-by-call stepper for both sessions *)
+  let start = if m.m_nil then M.pool_new else M.new_scanner (if m.m_pre then take_n m.m_k m.m_src1 else m.m_src1) in
+  let (o1, st1) = run_ext m.m_src1 start m.m_t1 in
+  let outs1 = if m.m_pre then ["P"] else o1 in
+  match st1 with
+  | None -> String.concat ";" outs1
+  | Some sc1 ->
+    let scz = M.reset_sc sc1 m.m_src2 in
+    let z = "Z" ^ hex (M.text scz) ^ ":" ^ b01 (M.complete scz) ^ ":" ^ (if M.err_eof scz then "e1" else "e0") in
+    String.concat ";" (outs1 @ z :: fst (run_ext m.m_src2 scz m.m_t2))
 let eval_m m =
+  if is_ext m.m_t1 || is_ext m.m_t2 then eval_m_ext m else
   let ops1 = List.filter_map xop_of_char m.m_c1 and ops2 = List.filter_map xop_of_char m.m_c2 in
   let start = if m.m_nil then M.pool_new else M.new_scanner (if m.m_pre then take_n m.m_k m.m_src1 else m.m_src1) in
   let outs1 = if m.m_pre then ["P"] else show_outs m.m_c1 (M.run_opsx m.m_src1 start ops1) in
@@ -302,7 +381,80 @@ let only_nr rest = match rest with [o] -> String.for_all (fun c -> c = 'n' || c 
 (* the property on the implementation's observations: the extracted reference session checker
    (ShellSession.session_okx, the function of theorem C16_sessionx, which reads Next/Rest exactly as
    session_ok of C16_session does); the hand-written walk explain_session only words the reason *)
+(* Round 6: the property on a session in which the reader returned by Rest is read in part.  The walk
+   is the reference session checker's own step function (ShellSession.ref_stepx, extracted), one
+   observation at a time, plus what it has no op for:
+     - [unread]: the bytes of the reader handed out by the last Rest that the caller has not read yet.
+       "Rest returns exactly the bytes not yet consumed": a Rest that comes after an earlier Rest must
+       return exactly [unread] (ref_stepx alone would demand the empty string there, which is the same
+       thing whenever the first reader was read to its end); p / q must deliver the next k of them;
+     - [tc]: what Text and Complete last were seen or documented to be (no token and Complete after
+       NewScanner / Reset, no token and not Complete after Rest, else what the last Next / Split / Each
+       observation reported): an observation t must repeat it.
+   Independent of the model: only the reference tokenizer (through ref_stepx) is consulted. *)
+let spec_ext src toks (outs : string list) : string option =
+  let q = ref (M.RActive (src, true)) and unread = ref [] and have = ref false and tc = ref ([], true) in
+  let body o = String.sub o 1 (String.length o - 1) in
+  let stepx op ob = match M.ref_stepx src !q op ob with Some q' -> q := q'; true | None -> false in
+  let generic = "observations rejected by the reference session checker (a token, Text, Complete or Err differs from the reference, Text/Complete changed after the end, or Rest is not exactly the unconsumed input)" in
+  let rec go i toks outs =
+    match toks, outs with
+    | [], [] -> None
+    | _, "PANIC" :: _ -> Some "the scanner panicked"
+    | [], _ :: _ -> Some "more observations than calls"
+    | _ :: _, [] -> Some "fewer observations than calls"
+    | (c, k) :: toks', o :: outs' ->
+      let at w = Some ("call " ^ string_of_int i ^ " (" ^ String.make 1 c ^ (if c = 'p' || c = 'q' then string_of_int k else "") ^ "): " ^ w) in
+      if o = "" then at "bad output syntax" else
+      (try match c with
+       | 'r' | 'p' ->
+         if o.[0] <> c then at "bad output syntax" else
+         let b = unhex (body o) in
+         let (all, second) = match !q with M.RActive (rem, _) -> (rem, false) | M.REnded (_, _) -> (!unread, true) in
+         let want = if c = 'r' then all else take_b k all in
+         if b <> want then
+           at (if second && List.length b < List.length want then "a Rest after an earlier Rest whose reader was read only in part does not return the bytes that were still unread (input lost): want " ^ hex want
+               else if second then "a Rest after an earlier Rest does not return exactly the bytes not yet read: want " ^ hex want
+               else "Rest does not return exactly the unconsumed input: want " ^ hex want)
+         else if not (stepx M.XRest (M.XRRest (if second then [] else all))) then at generic
+         else begin
+           unread := (if c = 'r' then [] else drop_b k all); have := true; tc := ([], false);
+           go (i + 1) toks' outs' end
+       | 'q' ->
+         if not !have then (if o = "q-" then go (i + 1) toks' outs' else at "bad output syntax") else
+         if o.[0] <> 'q' then at "bad output syntax" else
+         let b = unhex (body o) in
+         if b <> take_b k !unread then at ("reading on from the reader Rest returned does not deliver the next unread bytes: want " ^ hex (take_b k !unread))
+         else begin unread := drop_b k !unread; go (i + 1) toks' outs' end
+       | 't' ->
+         (match (if o.[0] = 't' then String.split_on_char ':' (body o) else []) with
+          | [t; cm] when (cm = "0" || cm = "1") ->
+            if (unhex t, cm = "1") = !tc then go (i + 1) toks' outs'
+            else at ("Text / Complete are not what the last call left (want " ^ hex (fst !tc) ^ ":" ^ b01 (snd !tc) ^ ")")
+          | _ -> at "bad output syntax")
+       | _ ->
+         (match xop_of_char c with
+          | None -> at "bad op"
+          | Some op ->
+            let ob = parse_xout o in
+            if not (stepx op ob) then at generic else begin
+              (match ob with
+               | M.XRNext (_, t, cm) | M.XRSplit (_, t, cm) | M.XREach (_, t, cm) -> tc := (t, cm)
+               | M.XRReset -> tc := ([], true); unread := []; have := false
+               | _ -> ());
+              go (i + 1) toks' outs' end)
+       with _ -> at "bad output syntax") in
+  go 1 toks outs
+
+(* a session judged: by the extracted session_okx, or (round-6 ops) by the walk above *)
+let session_judge src toks (outs : string list) : string option =
+  if is_ext toks then spec_ext src toks outs
+  else if M.session_okx src (List.filter_map (fun (c, _) -> xop_of_char c) toks) (List.map parse_xout outs) then None
+  else Some "rejected"
+
 let spec_session = memo1 (fun (s, rest, out) ->
+    let opstr = match rest with [o] -> o | _ -> "" in
+    if is_ext (optoks opstr) then spec_ext (unhex s) (optoks opstr) (if out = "" then [] else String.split_on_char ';' out) else
     let outs = if out = "" then [] else List.map parse_xout (String.split_on_char ';' out) in
     if M.session_okx (unhex s) (xops_of rest) outs then None
     else Some (match (if only_nr rest then explain_session s rest out else None) with
@@ -402,12 +554,16 @@ let spec_m m out =
   | Some (o1, z, o2) ->
     let ops1 = List.filter_map xop_of_char m.m_c1 and ops2 = List.filter_map xop_of_char m.m_c2 in
     if m.m_pre && o1 <> ["P"] then Some "bad output syntax" else
-    if not m.m_pre && not (M.session_okx m.m_src1 ops1 (List.map parse_xout o1)) then
-      Some "first session (before Reset): observations rejected by the reference session checker" else
+    if not m.m_pre && session_judge m.m_src1 m.m_t1 o1 <> None then
+      Some ("first session (before Reset): observations rejected by the reference session checker"
+            ^ (match session_judge m.m_src1 m.m_t1 o1 with Some w when w <> "rejected" -> ": " ^ w | _ -> "")) else
     if z <> "Z-:1:e0" then
       Some ("right after Reset the scanner is not like a new one (want no token, Complete, Err nil): " ^ z) else
     if List.mem "PANIC" o2 then Some "the scanner panicked after Reset" else
-    if M.session_okx m.m_src2 ops2 (List.map parse_xout o2) then None
+    if session_judge m.m_src2 m.m_t2 o2 = None then None
+    else if is_ext m.m_t2 then
+      Some ("after Reset onto a second input the scanner does not behave like a fresh scanner on that input: "
+            ^ (match session_judge m.m_src2 m.m_t2 o2 with Some w -> w | None -> ""))
     else
       let detail =
         (* wording only: the first Rest of the second session against the unconsumed input *)
